@@ -73,3 +73,28 @@ Theorem C13_all_kinds_signed :
   end.
 Proof. exact all_kinds_signed. Qed.
 Print Assumptions C13_all_kinds_signed.
+
+(* ServiceProvider.Metadata: one X509Certificate element per certificate; with
+   a signature method configured there is a signing KeyDescriptor whose first
+   certificate is the SP's own (then the intermediates, in order) and
+   AuthnRequestsSigned is true; without a method neither *)
+Theorem C13_metadata_advertises :
+  forall c inters rsa m,
+  (nonempty m = true ->
+     kd_certs_of "signing" (sp_key_descriptors (Some c) inters rsa m) = Some (c :: inters)
+     /\ sp_authn_requests_signed m = true) /\
+  (nonempty m = false ->
+     kd_certs_of "signing" (sp_key_descriptors (Some c) inters rsa m) = None
+     /\ sp_authn_requests_signed m = false) /\
+  (forall cs, kd_certs_of "encryption" (sp_key_descriptors (Some c) inters rsa m) = Some cs ->
+     rsa = true /\ cs = c :: inters).
+Proof. exact metadata_advertises. Qed.
+Print Assumptions C13_metadata_advertises.
+
+Theorem C13_metadata_meets_monitor :
+  forall c inters rsa m,
+  mdcase_spec {| md_cert := Some c; md_inters := inters; md_rsa := rsa; md_method := m;
+                 md_kds := sp_key_descriptors (Some c) inters rsa m;
+                 md_authn_signed := sp_authn_requests_signed m; md_first_is_sp_cert := true |} = true.
+Proof. exact metadata_meets_spec. Qed.
+Print Assumptions C13_metadata_meets_monitor.
